@@ -66,6 +66,33 @@ theorem timeDuration_months (d : Date) (n : Int) (hv : d.valid = true) (hr : d.i
   simp only [ruleTimeDuration, start_of_date d, dt_of_date d hv hr, bind, Except.bind, pure, Except.pure]
   split <;> rfl
 
+/-- `<date-time> for N hours|minutes`: the end is the start instant moved by exactly 60·N resp. N minutes (`Ts.addMinutes`), written out
+with all five fields; the production fails cleanly when that instant leaves the calendar. Holds for **every** value whose `dt` exists
+(dates, date-times, dates with a part of day), every N (also negative) and both units. -/
+theorem timeDuration_clock (t : Time) (dt : Ts) (n : Int) (u : DUnit) (hu : u = .hours ∨ u = .minutes) (hdt : t.dt = .ok dt) :
+    ruleTimeDuration t n u =
+      .ok (if (dt.addMinutes (if u = .hours then 60 * n else n)).date.inRange then
+             some (.interval (some t) (some
+               { year := some (dt.addMinutes (if u = .hours then 60 * n else n)).date.y, month := some (dt.addMinutes (if u = .hours then 60 * n else n)).date.m,
+                 day := some (dt.addMinutes (if u = .hours then 60 * n else n)).date.d, hour := some (dt.addMinutes (if u = .hours then 60 * n else n)).h,
+                 minute := some (dt.addMinutes (if u = .hours then 60 * n else n)).mi }))
+           else none) := by
+  have hs : ∃ s, t.start = .ok s := by
+    cases hst : t.start with
+    | ok s => exact ⟨s, rfl⟩
+    | error e => simp [Time.dt, hst, bind, Except.bind] at hdt
+  obtain ⟨s, hst⟩ := hs
+  rcases hu with hu | hu <;> subst hu <;>
+    simp only [ruleTimeDuration, hst, hdt, bind, Except.bind, pure, Except.pure] <;>
+    simp <;> split <;> rfl
+
+/-- … and that instant is exactly N units later on the minute axis, a valid calendar instant with clock fields in range -/
+theorem timeDuration_clock_exact (dt : Ts) (k : Int) (h1 : 1 ≤ (dt.minutes + k) / 1440) (h2 : (dt.minutes + k) / 1440 ≤ maxOrd) :
+    (dt.addMinutes k).minutes - dt.minutes = k ∧ (dt.addMinutes k).date.Valid ∧
+      0 ≤ (dt.addMinutes k).h ∧ (dt.addMinutes k).h ≤ 23 ∧ 0 ≤ (dt.addMinutes k).mi ∧ (dt.addMinutes k).mi ≤ 59 := by
+  obtain ⟨hm, hv, a, b, c, d⟩ := addMinutes_spec dt k h1 h2
+  exact ⟨by omega, hv, a, b, c, d⟩
+
 /-- 'N days|nights <date range>': accepted iff the range is exactly N days long (by ordinals) -/
 theorem durationInterval_spec (a b : Date) (n : Int) (u : DUnit) (hu : u = .days ∨ u = .nights)
     (ha : a.valid = true) (hb : b.valid = true) (ra : a.inRange = true) (rb : b.inRange = true) :
@@ -79,6 +106,9 @@ theorem durationInterval_spec (a b : Date) (n : Int) (u : DUnit) (hu : u = .days
 example : ruleTimeDuration (dateT ⟨2020, 1, 31⟩) 1 .months = .ok (some (.interval (some (dateT ⟨2020, 1, 31⟩)) (some (tsTime ⟨2020, 2, 29⟩)))) := by decide +kernel
 example : ruleTimeDuration (dateT ⟨2019, 12, 31⟩) 1 .days = .ok (some (.interval (some (dateT ⟨2019, 12, 31⟩)) (some (tsTime ⟨2020, 1, 1⟩)))) := by decide +kernel
 example : ruleTimeDuration (dateT ⟨2020, 12, 12⟩) 99999999 .days = .ok none := by decide +kernel
+example : ruleTimeDuration { year := some 2019, month := some 12, day := some 31, hour := some 23, minute := some 30 } 2 .hours =
+    .ok (some (.interval (some { year := some 2019, month := some 12, day := some 31, hour := some 23, minute := some 30 })
+      (some { year := some 2020, month := some 1, day := some 1, hour := some 1, minute := some 30 }))) := by decide +kernel
 example : ruleDurationInterval 3 .days (some (dateT ⟨2020, 11, 15⟩)) (some (dateT ⟨2020, 11, 18⟩)) = .ok (some (.interval (some (dateT ⟨2020, 11, 15⟩)) (some (dateT ⟨2020, 11, 18⟩)))) := by decide +kernel
 example : ruleDurationInterval 1 .days (some (dateT ⟨2020, 11, 15⟩)) (some (dateT ⟨2020, 12, 16⟩)) = .ok none := by decide +kernel
 
